@@ -187,6 +187,27 @@ def run(tier, rep):
         for b in lines1[:40]:
             structs.append([a, [], b])
 
+    # every base64 digit in every position of a field: one value per field
+    # position of a 1 / 4 / 5 field segment, alone, after and before another
+    # segment, on the first and on a later line
+    wide = sorted(set(list(range(-1056, 1057)) + [
+        s * (32 ** k) * m + d for k in (2, 3, 6, 12) for m in (1, 16, 31)
+        for d in (-1, 0, 1) for s in (1, -1)]), key=lambda v: (abs(v), v))
+    if tier != 'quick':
+        wide = sorted(set(wide + list(range(-40000, 40001))),
+                      key=lambda v: (abs(v), v))
+    nfield = 0
+    for v in wide:
+        for arity in (1, 4, 5):
+            for pos in range(arity):
+                seg = tuple(v if i == pos else 0 for i in range(arity))
+                structs.append([[seg]])
+                nfield += 1
+                if abs(v) <= 1056:
+                    structs.append([[(0,), seg, (1, 0, 0, 0)]])
+                    structs.append([[], [seg, seg], []])
+                    nfield += 2
+
     def norm(m):
         return [[tuple(s) for s in line] for line in m]
 
@@ -219,7 +240,8 @@ def run(tier, rep):
         tot += n
         nontriv += n
         rep.bag.merge(bag)
-    rep.space('mappings', values=TINY, cases=len(structs))
+    rep.space('mappings', values=TINY, cases=len(structs),
+              one_field_family=nfield, field_values=len(wide))
 
     # (5) every canonical VLQ string of <= strlen characters
     firsts = list(R5.ALPHABET)
@@ -258,6 +280,47 @@ def run(tier, rep):
     rep.space('vlq-strings', max_len=strlen, strings=ns, canonical=nc)
     tot += ns
     nontriv += nc
+
+    # (6) mappings strings: every pair of canonical VLQ strings of <= 2
+    # characters joined by ',' or ';', and each alone, as 1-field segments
+    canon2 = [a + b for a in [''] + list(R5.ALPHABET) for b in R5.ALPHABET
+              if R5.is_canonical(a + b)]
+    mstrings = list(canon2)
+    short = [c for c in canon2 if len(c) == 1] + [
+        c for c in canon2 if len(c) == 2 and c[1] in 'BC/' ]
+    for a in short:
+        for b in short:
+            mstrings.append(a + ',' + b)
+            mstrings.append(a + ';' + b)
+
+    def work_mstrings(items, idx):
+        bag = VioBag()
+        for ms in items:
+            try:
+                ref = R5.decode_mappings_relative(ms)
+            except Exception as ex:
+                bag.add('C10|reference-decoder-raises', {'mstring': ms},
+                        repr(ex))
+                continue
+            try:
+                d = vlq.decode_mappings(ms)
+                e = vlq.encode_mappings(d)
+            except Exception as ex:
+                bag.add('C10|mstring-raises-' + type(ex).__name__,
+                        {'mstring': ms}, repr(ex))
+                continue
+            if norm(d) != ref:
+                bag.add('C10|mstring-decode-disagrees', {'mstring': ms},
+                        'impl %r reference %r' % (d, ref))
+            if e != ms:
+                bag.add('C10|mstring-encode-decode-differs', {'mstring': ms},
+                        'got %r' % (e,))
+        return len(items), bag
+    for n, bag in pmap(work_mstrings, mstrings):
+        tot += n
+        nontriv += n
+        rep.bag.merge(bag)
+    rep.space('mappings-strings', cases=len(mstrings))
 
     rep.cov['evaluations'] = tot
     rep.cov['distinct_nontrivial'] = nontriv
@@ -300,6 +363,13 @@ def replay(w):
                 [tuple(s) for s in l] for l in vlq.decode_mappings(e)] != [
                 [tuple(s) for s in l] for l in m]:
             bag.add('C10|mappings', w)
+    elif 'mstring' in w:
+        ms = w['mstring']
+        d = vlq.decode_mappings(ms)
+        if [[tuple(s) for s in l] for l in d] != \
+                R5.decode_mappings_relative(ms) or \
+                vlq.encode_mappings(d) != ms:
+            bag.add('C10|mstring', w)
     elif 'vlq' in w:
         s = w['vlq']
         d = list(vlq.decode_vlqs(s))
